@@ -187,6 +187,13 @@ Proof.
       destruct (mark false (n - N.of_nat (count_notified l)) l) as [l' ws]. destruct M as (A & B & _). unfold cN in *. split; [exact A|]. split; [lia|]. intros _. lia.
 Qed.
 
+Lemma notify1_count l : let '(l', ws) := ev_notify 1 false l in
+  N.of_nat (length ws) + cN l <= cN l' /\ (1 <= cN l -> cN l' = cN l) /\ (cN l = 0 -> cN l' <= 1).
+Proof.
+  pose proof (notify_count 1 false l) as M. destruct (ev_notify 1 false l) as [l' ws]. destruct M as (A & B & C). specialize (C eq_refl).
+  split; [exact A|]. split; intro H; lia.
+Qed.
+
 Lemma drop_count id l : let '(l', ws) := ev_drop id l in
   N.of_nat (length ws) + cN l <= cN l' + notified_at id l /\ cN l' <= cN l.
 Proof.
